@@ -300,3 +300,7 @@ Definition representable_full (m : member) : bool := representable m && negb (m_
 Definition spec_build2 (m : member) : list kv :=
   spec_build m ++
   [("spec.representable", obs_bool (representable_full m)); ("spec.violations", OL (map obs_werr (violations m)))].
+
+(* the bare chunk- and item-level public writers (SdesChunkBuilder / SdesItemBuilder::write_into) *)
+Definition spec_chunk (c : chunk_cfg) : list kv := [("spec.image", OB (rfc_chunk c))].
+Definition spec_item (i : item_cfg) : list kv := [("spec.image", OB (rfc_item i))].
